@@ -697,7 +697,7 @@ def param_roles(prog, g, _depth=0):
                     if st["rv"]["op"] == "Div" and deep(h, st["rv"]["r"], 3) == tok:
                         role.add("div")
         # a parameter handed unchanged to a private helper of the formatter module takes the role it has there
-        if not role and _depth < 3:
+        if "base" not in role and "div" not in role and _depth < 3:
             for h in fam:
                 tok = me if h is g else ("upvar:%s" % nm)
                 for bi, t in h.calls():
